@@ -1,6 +1,7 @@
 """C10 — outcomes do not depend on ballot order, candidate names or hash seed."""
 import os
 import subprocess
+import itertools
 from fractions import Fraction
 from common import *   # noqa
 import families as fam_mod
@@ -150,7 +151,7 @@ UNPROVED += [
     'hash_seed_independence (not expressible in a Lean model; sampled)',
 ]
 UNPROVED = [u for u in UNPROVED if not u.startswith('rename_equivariant_thresholds')]
-REQUIRED_COUNTERS = ['perm', 'rename', 'rename_int', 'rename_person', 'mj_partial_heavy', 'reverse_sort_rename', 'hashseed', 'modelled', 'symmetric_pair', 'all_perms', 'symmetric_profile']
+REQUIRED_COUNTERS = ['perm', 'rename', 'rename_int', 'rename_person', 'mj_partial_heavy', 'pure_cap_and_floor', 'reverse_sort_rename', 'hashseed', 'modelled', 'symmetric_pair', 'all_perms', 'symmetric_profile']
 RULE = ('every deterministic evaluator family x generated profiles (2-5 candidates) x 3 permutations of insertion order x 3 bijective '
         'renamings (one reversing string sort order, one to multi-character random names, one permuting the base names) in-process, and a '
         'sample of the cases in subprocesses under PYTHONHASHSEED in {0,1,2,3,random}; small profiles (<= 3 entries quick, <= 4 thorough) under '
@@ -243,16 +244,35 @@ def generate(rng, tier):
                 cands = fam_mod.candidates_of('score', prof)
                 rens = _names_variants(rng, max(cands) + 1)
                 if max(cands) + 1 == 3:          # every int naming of three candidates: every iteration order of a tied set
-                    import itertools as _it
-                    rens = rens[:3] + [('rename_int', list(q)) for q in _it.permutations(range(3))]
+                    rens = rens[:3] + [('rename_int', list(q)) for q in itertools.permutations(range(3))]
                 hs = hs_budget > 0 and t % 4 == 0
                 if hs:
                     hs_budget -= 1
                 yield {'op': 'invariance', 'family': f.name, 'prof': prof, 'n': rng.randint(1, 2),
                        'perms': [fam_mod.permute(prof, rng) for _ in range(K_PERM)], 'renamings': [r for _, r in rens],
                        'hashseeds': HASH_SEEDS if hs else [], '_tags': ['perm', 'mj_partial_heavy'] + [tg for tg, _ in rens] + (['hashseed'] if hs else [])}
+    # directed: exact proportional shares with a cap (largest party) and previous seats (smallest party) binding in the SAME pass,
+    # the smallest party's share being a whole number: which of the two is fixed first must not matter
+    for f in F:
+        if f.name == 'pure_proportionality_constrained':
+            for t in range(30 if tier == 'quick' else 300):
+                n = rng.choice([5, 10, 20])
+                u = rng.randint(3, 12)
+                total = n * u
+                small = u * rng.choice([1, 1, 2])
+                big = rng.randint(total // 2 + 1, (total * 7) // 10)
+                mid = total - small - big
+                if not (small < mid < big):
+                    continue
+                vals = [big, mid, small]
+                order = [0, 1, 2]
+                rng.shuffle(order)
+                prof = [[i, str(vals[i])] for i in order]
+                rens = _names_variants(rng, 3)
+                yield {'op': 'invariance', 'family': f.name, 'prof': prof, 'n': n,
+                       'perms': [list(q) for q in itertools.permutations(prof)], 'renamings': [r for _, r in rens],
+                       'hashseeds': [], '_tags': ['perm', 'all_perms', 'pure_cap_and_floor'] + [tg for tg, _ in rens]}
     # small scope, exhaustively: ALL orders of presentation of profiles with at most 3 (quick) / 4 (thorough) entries
-    import itertools
     cap = 3 if tier == 'quick' else 4
     for f in F:
         made = 0
